@@ -1356,3 +1356,60 @@ class C11(PropOracle):
 
 
 ORACLES["C11"] = C11
+
+
+class C08S(PropOracle):
+    """System-level half of C08: every row written by a runner process ends up exactly once in the
+    consolidated file and is reported to exactly one submitter round (its job is marked done once)."""
+
+    prop = "C08"
+
+    def __init__(self):
+        self.done_events = {}
+
+    def digest(self):
+        return repr(sorted(self.done_events.items()))
+
+    def on_transition(self, w, vp, d):
+        if "job_status.json" not in w.written:
+            return
+        s = w.obs.jobstatus or {}
+        for j in s.get("jobs", []):
+            if j["state"] == "done":
+                self.done_events.setdefault(j["name"], vp.name)
+
+    def on_end(self, w, vp, d):
+        o = w.obs
+        c = o.cluster or {}
+        if not c.get("is_complete") or w.data.get("faulty"):
+            return
+        rows = disk_rows(w)
+        s = o.jobstatus or {}
+        states = {j["name"]: j["state"] for j in s.get("jobs", [])}
+        for j in w.scen["jobs"]:
+            n = j["name"]
+            rr = rows.get(n, [])
+            wrote = len(o.exits.get(n, [])) > 0
+            if len(rr) > 1:
+                self.v(w, f"result of {n} is recorded {len(rr)} times: {rr}", "row-duplicated")
+            if wrote and not rr:
+                self.v(w, f"job {n} finished (exit {o.exits[n]}) but its row is nowhere on disk at completion", "row-lost")
+            if rr and rr[0][2] != "processed_results.csv":
+                self.v(w, f"row of {n} is still in {rr[0][2]} at completion (never collected)", "row-not-collected")
+            if rr and states.get(n) != "done":
+                self.v(w, f"job {n} has a result but no submitter round was told: state {states.get(n)} at completion", "completion-not-reported")
+            if rr and wrote and rr[0][1] == "finished" and int(rr[0][0]) not in o.exits.get(n, []):
+                self.v(w, f"row of {n} carries return code {rr[0][0]}, its process delivered {o.exits.get(n)}", "row-misattributed")
+        if c.get("completed_jobs") != sum(1 for v in states.values() if v == "done"):
+            self.v(w, f"completed_jobs={c.get('completed_jobs')} but {sum(1 for v in states.values() if v == 'done')} jobs were reported done", "reported-count")
+        for p in [w.rootp + "processed_results.csv"]:
+            txt = read_rows(p)
+            if txt is None:
+                self.v(w, "consolidated results file unreadable at completion", "consolidated-unreadable")
+            else:
+                bad = [r for r in txt if len(r) != 6 or None in r or not str(r.get("return_code", "")).lstrip("-").isdigit()]
+                if bad:
+                    self.v(w, f"consolidated results file has malformed rows: {bad[:2]}", "consolidated-malformed")
+
+
+ORACLES["C08S"] = C08S
